@@ -10,6 +10,7 @@ take shows up as `rejected:…`.
 -/
 import Pandora.Drv.Util
 import Pandora.Model.C05Pool
+import Pandora.Model.C05Cli
 import Pandora.Spec.C05
 
 namespace Pandora.Drv.C05
@@ -255,8 +256,26 @@ def poolCls (res : String) : String :=
 
 def listStr (l : List String) : String := if l.isEmpty then "-" else ",".intercalate l
 
+/-- `cli=` cases: what `awaitPandoraTermination` (model `Cli.run`) does with the result `res` of `Engine.Run`; whether
+its outer select read the signal first is what the process says in its own log (`rcv`) -/
+def cliPred (kind res : String) (evs : List String) : String :=
+  let sg : Cli.Sig := if kind == "term" then .term else .int
+  let events : List Cli.Ev :=
+    (if evs.contains "rcv" then [Cli.Ev.sig sg] else []) ++ [Cli.Ev.err (res == "ok"), Cli.Ev.waitDone]
+  let acts := Cli.run events
+  let waited := acts.contains .waited
+  listStr (acts.filterMap fun a =>
+    match a with
+    | .rcv => some "rcv"
+    | .shutdown => some "gs"
+    | .exit 0 => some "ok"
+    | .exit _ => some (if waited then "fatal.w1" else "fatal.w0")
+    | _ => none)
+
 def handle : Handler := fun input impl =>
   if impl == "SKIPPED-AFTER-HANGS" then ("-", "skip:not-run-after-hangs") else
+  if impl.startsWith "NOINSTR" then ("-", "skip:no-instrumented-worker") else
+  if impl.startsWith "NOREAL" then ("-", "skip:no-registered-gun-factory") else
   if impl.startsWith "PANIC" || impl.startsWith "HANG" || impl.startsWith "BADINPUT" then
     ("-", s!"fail:crash:{impl.take 80}") else
   match parsePlan input with
@@ -272,7 +291,7 @@ def handle : Handler := fun input impl =>
     let allowExt := o.canc || (n > 1 && o.res != "ok")
     let preds := (List.range n).map fun i =>
       match pl.pools[i]?, o.pools[i]? with
-      | some p, some po => replayPool p po allowExt (pl.cancel.startsWith "pre")
+      | some p, some po => replayPool { p with closable := closableOf p po } po allowExt (pl.cancel.startsWith "pre")
       | _, _ => .error "missing-pool"
     match preds.mapM id with
     | .error e => (e, v)
@@ -307,8 +326,17 @@ def handle : Handler := fun input impl =>
         | none => "running"
       let wait := if ps.all (·.done) then "ok" else "hang"
       let head := s!"res={res} canc={if o.canc then 1 else 0} lat={o.lat} wait={wait} leak=0 eng={listStr o.eng} engc={o.engc} sup={o.sup}"
+      let head := match o.cli with
+        | some evs => head ++ s!" cli={cliPred pl.cli res evs} csig={if o.csig then 1 else 0}"
+        | none => head
       let body := (List.range n).zip ps |>.map fun (i, pp) =>
-        s!" p{i}.main={listStr pp.main} p{i}.aw={listStr pp.aw} p{i}.guns={pp.guns} p{i}.closes={listStr (pp.closes.map toString)} p{i}.errs={listStr pp.errs}"
+        let real := match pl.pools[i]?, o.pools[i]? with
+          | some p, some po =>
+            if p.real then
+              s!" p{i}.gcl={if po.gcl.getD false then 1 else 0} p{i}.icl={if po.icl.getD false then 1 else 0} p{i}.srvopen=0"
+            else ""
+          | _, _ => ""
+        s!" p{i}.main={listStr pp.main} p{i}.aw={listStr pp.aw} p{i}.guns={pp.guns} p{i}.closes={listStr (pp.closes.map toString)} p{i}.errs={listStr pp.errs}" ++ real
       (head ++ String.join body, v)
 
 end Pandora.Drv.C05
